@@ -118,6 +118,13 @@ pub fn replay(v: &Value) -> i32 {
             }
             0
         }
+        "standalone" | "raw-form-standalone" => {
+            match serde_json::from_value::<crate::props::standalone::S>(r["s"].clone()) {
+                Ok(st) => crate::props::standalone::replay(&st),
+                Err(e) => println!("unreadable stand-alone structure description: {}", e),
+            }
+            0
+        }
         "res" => {
             let d: R = match serde_json::from_value(r["r"].clone()) {
                 Ok(d) => d,
